@@ -27,6 +27,14 @@ def Expr.c : Expr → String
 
 def Ty.c : Ty → String | .int => "int" | .bool => "bool"
 
+def tmpDeclLines : Nat → List Ty → List Expr → List String
+  | k, t :: ts, e :: es => s!"{t.c} {tmpName k} = {e.c};" :: tmpDeclLines (k + 1) ts es
+  | _, _, _ => []
+
+def tmpAssignLines : Nat → List String → List String
+  | _, [] => []
+  | k, x :: xs => s!"{x} = {tmpName k};" :: tmpAssignLines (k + 1) xs
+
 def Stmt.isSkip : Stmt → Bool | .skip => true | _ => false
 
 /-- lines of a statement; `chain` marks an `ifs` printed as `else if` -/
@@ -35,6 +43,8 @@ def Stmt.lines : Stmt → List String
   | .seq a b => a.lines ++ b.lines
   | .assign x e => [s!"{x} = {e.c};"]
   | .aug x op e => [s!"{x} = ({x} {op.sym} {e.c});"]
+  | .tuple _ _ _ => []
+  | .ctuple k ts xs es => tmpDeclLines k ts es ++ tmpAssignLines k xs
   | .ifs c t e =>
     [s!"if ({c.c}) \{"] ++ t.lines ++ ["}"] ++
       (match e with
